@@ -11,8 +11,9 @@ fn gen_opts(r: &mut Rng, lat: bool) -> ShapeCastOptions {
 /// the reference point is at distance `reach` from the origin.
 fn gen_vel(r: &mut Rng, lat: bool, t: &V, reach: f64) -> V {
     let sc = if lat { *r.pick(&[0.25, 0.5, 1.0, 2.0, 8.0]) } else { r.logu(1e-3, 1e3) };
-    match r.below(8) {
+    match r.below(9) {
         0 => V::zeros(),
+        8 => ortho(t) * sc,                          // purely tangential (normal velocity exactly 0 on lattice inputs)
         1 => -*t * sc,                               // straight at the centre
         2 => *t * sc,                                // straight away
         3 => { // grazing: closest approach of the reference point = reach (when t ⟂ offset is lattice this is exact)
@@ -116,6 +117,16 @@ pub fn gen(r: &mut Rng, thorough: bool) -> Vec<(String, String)> {
             let mut pos12 = dx::gen_iso(r, lat, 1.0);
             pos12.translation.vector = gen_offset(r, lat, reach);
             let vel = gen_vel(r, lat, &pos12.translation.vector, reach);
+            // tie: max_time_of_impact exactly equal to (or one ulp below) the time of impact
+            let mut o = o;
+            if r.below(6) == 0 {
+                let mut o2 = o; o2.max_time_of_impact = f64::MAX;
+                if let Some(h) = cast_shapes_ball_ball(&pos12, &vel, &Ball::new(r1), &Ball::new(r2), o2) {
+                    if h.time_of_impact > 0.0 && h.time_of_impact.is_finite() {
+                        o.max_time_of_impact = if r.bool() { h.time_of_impact } else { f64::from_bits(h.time_of_impact.to_bits() - 1) };
+                    }
+                }
+            }
             v.push(("ballball".into(), format!("{} {} {} {} {}", dx::hiso(&pos12), dx::hv(&vel), hx(r1), hx(r2), hopts(&o))));
             let pos1 = dx::gen_iso(r, lat, 20.0);
             let pos2 = pos1 * pos12;
@@ -145,6 +156,18 @@ pub fn gen(r: &mut Rng, thorough: bool) -> Vec<(String, String)> {
                 _ => dx::gen_v(r, lat, if lat { 1.0 } else { 50.0 }),
             };
             let shape_args = &tokens[2..];
+            let mut o = o;
+            if r.below(6) == 0 {
+                let mut o2 = o; o2.max_time_of_impact = f64::MAX;
+                let hs = HalfSpace::new(Unit::new_unchecked(nrm));
+                let hit = if which == 0 { let mut a = Args::new(shape_args); cast_shapes_halfspace_support_map(&pos12, &vel, &hs, &Ball::new(a.f()), o2) }
+                          else { let mut a = Args::new(shape_args); cast_shapes_halfspace_support_map(&pos12, &vel, &hs, &Cuboid::new(dx::v(&mut a)), o2) };
+                if let Some(h) = hit {
+                    if h.time_of_impact > 0.0 && h.time_of_impact.is_finite() {
+                        o.max_time_of_impact = if r.bool() { h.time_of_impact } else { f64::from_bits(h.time_of_impact.to_bits() - 1) };
+                    }
+                }
+            }
             let name = if which == 0 { "hs_ball" } else { "hs_cuboid" };
             v.push((name.into(), format!("{} {} {} {} {}", dx::hiso(&pos12), dx::hv(&vel), dx::hv(&nrm), shape_args, hopts(&o))));
             // mirrored: the support-mapped shape is shape 1; pos21 / vel21 are the exact images when the rotation is exact
